@@ -417,7 +417,7 @@ def run(ctx):
 
 MANIFEST = {
     "category": "other",
-    "technique": "type-directed serde-sink scan over the signed-type closure + writer/reader sibling agreement from exhaustive path tables (abstract interpretation of the MIR)",
+    "technique": "type-directed serde-sink scan over the signed-type closure + writer/reader sibling agreement from exhaustive path tables (abstract interpretation of the MIR); reader-only acceptance conditions",
     "text": "Static: every Serialize impl (hand-written or derived) of a type reachable from a signed Header<E> is scanned for serde sink calls whose value type has unspecified iteration order; the complete path tables of the header/extension writers and visitors are compared (element types per shape, presence predicates, field placement, variant codes, length prefix). Decides determinism-of-encoding and writer/reader agreement as structure; does not evaluate CBOR bytes.",
     "note": "Trusted: rustc MIR, driver, rule engine; serde/ciborium semantics as axioms. Extension types are those instantiated for Header::{to_bytes,hash,sign,verify} in non-test code.",
 }
